@@ -17,6 +17,20 @@ type ModbusTCPAssembler struct {
 func (m *ModbusTCPAssembler) ReceiveRead(ctx context.Context, received []byte, bytesRead int) (response []byte, closeConnection bool) {
 	m.received.Write(received)
 
+	// Client may send next request before it has received response to the previous one, so single read can complete
+	// more than one packet. All of them are handled here, in order, otherwise already buffered request would be answered
+	// only after some following read (if there is ever going to be one).
+	for {
+		resp, ok := m.handleBuffered(ctx)
+		if !ok {
+			return response, false
+		}
+		response = append(response, resp...)
+	}
+}
+
+// handleBuffered handles first packet in buffer. Returns false when buffer does not contain complete packet (yet).
+func (m *ModbusTCPAssembler) handleBuffered(ctx context.Context) (response []byte, ok bool) {
 	n, err := packet.LooksLikeModbusTCP(m.received.Bytes(), false)
 	if err == packet.ErrTCPDataTooShort {
 		return nil, false // wait for more data to arrive
@@ -32,22 +46,22 @@ func (m *ModbusTCPAssembler) ReceiveRead(ctx context.Context, received []byte, b
 		} else {
 			m.received.Reset()
 		}
-		return err.(*packet.ErrorParseTCP).Bytes(), false
+		return err.(*packet.ErrorParseTCP).Bytes(), true
 	}
 
 	p, err := packet.ParseTCPRequest(m.received.Next(n))
 	if err != nil {
-		return err.(*packet.ErrorParseTCP).Bytes(), false
+		return err.(*packet.ErrorParseTCP).Bytes(), true
 	}
 
 	resp, err := m.Handler.Handle(ctx, p)
 	if err != nil {
 		var target *packet.ErrorParseTCP
 		if errors.As(err, &target) {
-			return target.Bytes(), false
+			return target.Bytes(), true
 		}
-		return packet.NewErrorParseTCP(packet.ErrUnknown, err.Error()).Bytes(), false
+		return packet.NewErrorParseTCP(packet.ErrUnknown, err.Error()).Bytes(), true
 	}
 
-	return resp.Bytes(), false
+	return resp.Bytes(), true
 }
